@@ -33,6 +33,7 @@ def gen_case(rng, exact):
                      for a, q in c['seed']]
         c['fractional'] = True
         c['stream'] += ':fractional-holdings'
+    c['via_handler'] = rng.random() < 0.35
     c['t_seed'] = MON + 52200
     c['extra_portfolios'] = rng.choice([0, 0, 1, 2])      # idle sub-portfolios in the same account
     c['seed_prices'] = [[a, price[a]] for a in ASSETS]
